@@ -45,12 +45,12 @@ type c03Sent struct {
 }
 
 type c03Instance struct {
-	Idx     int
-	Replica int
-	Engine  *aggengEngine
-	Gen     *c03Gen
-	Sent    []*c03Sent
-	mu      sync.Mutex
+	Idx       int
+	Replica   int
+	Engine    *aggengEngine
+	Gen       *c03Gen
+	Sent      []*c03Sent
+	mu        sync.Mutex
 	lastBuild time.Duration
 }
 
@@ -113,6 +113,9 @@ func c03Run(t *testing.T, r *verifkit.Run, rounds, nKeys, nHosts int) {
 	r.Assume("rows of built-in metrics (metric id < 0) are parsed and decoded but excluded from the exactly-once / merge oracle")
 
 	nInst := 3
+	if c03IntHash32(c03ZeroHashValue) != 0 {
+		r.Inconclusive("harness constant c03ZeroHashValue does not hash to 0")
+	}
 	if v := os.Getenv("VERIF_C03_KEYS"); v != "" {
 		nKeys, _ = strconv.Atoi(v)
 	}
@@ -315,13 +318,13 @@ type c03ObsRow struct {
 }
 
 type c03Decoded struct {
-	UniqItems int
-	UniqSize  uint64
-	UniqSkip  bool
-	Cent      [][2]float64
-	MinHost   c03Host
-	MaxHost   c03Host
-	CntHost   c03Host
+	UniqItems                    int
+	UniqSize                     uint64
+	UniqSkip                     bool
+	Cent                         [][2]float64
+	MinHost                      c03Host
+	MaxHost                      c03Host
+	CntHost                      c03Host
 	MinEmpty, MaxEmpty, CntEmpty bool
 }
 
@@ -456,16 +459,16 @@ func c03Near(got, want, sumAbs float64) bool {
 }
 
 type c03RowWitness struct {
-	Key    string  `json:"key"`
-	Top    string  `json:"top"`
-	Body   int     `json:"insert_seq"`
-	Count  float64 `json:"count"`
-	Min    float64 `json:"min"`
-	Max    float64 `json:"max"`
-	Sum    float64 `json:"sum"`
-	SumSq  float64 `json:"sumsquare"`
-	Uniq   int     `json:"uniq_items"`
-	Cent   int     `json:"centroids"`
+	Key   string  `json:"key"`
+	Top   string  `json:"top"`
+	Body  int     `json:"insert_seq"`
+	Count float64 `json:"count"`
+	Min   float64 `json:"min"`
+	Max   float64 `json:"max"`
+	Sum   float64 `json:"sum"`
+	SumSq float64 `json:"sumsquare"`
+	Uniq  int     `json:"uniq_items"`
+	Cent  int     `json:"centroids"`
 }
 
 func c03Witness(key, top string, o *c03ObsRow) c03RowWitness {
@@ -517,6 +520,9 @@ func c03CompareRow(r *verifkit.Run, inst *c03Instance, base *c03Base, top string
 			r.NotJudged("uniq_32bit_hash_collision_in_input", 1)
 		default:
 			r.Count("uniq.rows_exact_judged", 1)
+			if _, ok := exp.Uniq[c03ZeroHashValue]; ok {
+				r.Count("uniq.rows_with_zero_hash_item", 1)
+			}
 			r.MaxCounter("uniq.max_distinct_judged", int64(distinct))
 			if o.Dec.UniqSize != uint64(distinct) {
 				r.Violation("C03/uniq/size/"+class, fmt.Sprintf("API-decoded sketch size %d, exact number of distinct values %d (items written %d, skip degree %d)", o.Dec.UniqSize, distinct, len(row.UniqItems), row.UniqSkip), w())
@@ -692,13 +698,17 @@ func c03Judge(r *verifkit.Run, inst *c03Instance) {
 			full := bk + "\x00" + tk
 			if prev := seen[full]; prev != nil {
 				key, what := "C03/row/duplicate-in-body", "one INSERT body contains the same (time, metric, tags, string-top) key twice"
-				if eb := exp[bk]; eb != nil && len(eb.HistSources) >= 1 && len(eb.HistSources)+len(eb.Sources) >= 2 {
+				if eb := exp[bk]; eb != nil && len(eb.HistSources) >= 1 {
 					// One INSERT carries one recent and several historic aggregator buckets and rows are marshalled
-					// bucket by bucket: a key that reached two of these buckets (explicit timestamps sent in the
-					// buckets of different historic seconds; a historic-conveyor request for a second whose recent
-					// bucket is inserted together with it) appears once per bucket.
+					// bucket by bucket.  A key that reached two of these buckets appears once per bucket: explicit
+					// timestamps sent in the buckets of different historic seconds; a historic-conveyor request for a
+					// second whose recent bucket is inserted together with it; a historic second whose bucket was
+					// taken by the inserter while more requests for it arrived (a fresh bucket of the same second is
+					// created and taken by the same inserter).  Keys fed by the recent conveyor only live in exactly
+					// one bucket and never get this class.
 					key += "/across-buckets-of-one-insert"
-					what += fmt.Sprintf(": the key arrived in the buckets of %d different (second, conveyor) pairs, %d of them historic; these aggregator buckets went into one INSERT unmerged", len(eb.HistSources)+len(eb.Sources), len(eb.HistSources))
+					what += fmt.Sprintf(": the key arrived through the historic conveyor (%d historic, %d recent bucket seconds); several aggregator buckets holding it went into one INSERT unmerged", len(eb.HistSources), len(eb.Sources))
+				}
 				r.Violation(key, what,
 					map[string]any{"where": where, "first": c03Witness(bk, tk, prev), "second": c03Witness(bk, tk, o),
 						"first_hex": fmt.Sprintf("%x", ins.Body[prev.Row.Off:prev.Row.Off+prev.Row.Len]), "second_hex": fmt.Sprintf("%x", ins.Body[row.Off:row.Off+row.Len])})
